@@ -777,6 +777,64 @@ fn check_type(ctx: &Ctx, rng: &mut Rng, st: &mut St) {
                 }
             }
         }
+        // ---- repeat texts `[e; n]`: the array of n copies of e; an element in which a number does not
+        //      fit its type denotes no value (the element of a repeat is checked like any other)
+        if let (Ty::Array(et, n), Val::Array(elems)) = (&t, &v) {
+            if *n >= 1 && !elems.is_empty() {
+                let e0 = &elems[0];
+                let text_rep = format!("[{}; {n}]", ty::val_text(e0, et, &d));
+                let want = ty::encode_vec(&Val::Array(vec![e0.clone(); *n]), &t, &d);
+                match catch(|| prg.parse_arg(0, &text_rep).map(|a| a.as_bits())) {
+                    Err(p) => {
+                        fail(&format!("parse_arg panicked on a repeat text: {p}"), json!({"text": text_rep}));
+                        return;
+                    }
+                    Ok(Err(_)) => st.counts.inc("parse_arg(text): repeat of a canonical element: refused"),
+                    Ok(Ok(b)) => {
+                        if b != want {
+                            fail("parse_arg accepts a repeat text but encodes it differently from the array of its copies", json!({"text": text_rep, "bits": bits_str(&b), "documented": bits_str(&want)}));
+                            return;
+                        }
+                        st.counts.inc("parse_arg(text): repeat of a canonical element: accepted-equal");
+                    }
+                }
+                let k_ints = count_ints(e0);
+                if k_ints > 0 {
+                    let target = rng.usize_below(k_ints);
+                    let mut chosen = String::new();
+                    let bad_elem = text_with_number(e0, et, &d, target, &mut 0, &mut |it| {
+                        chosen = out_of_range_number(rng, it);
+                        chosen.clone()
+                    });
+                    // (for rows that are arrays themselves also as a repeat of a repeat)
+                    let bad = match (&**et, e0) {
+                        (Ty::Array(it, m), Val::Array(inner)) if *m >= 1 && !inner.is_empty() && count_ints(&inner[0]) > 0 && rng.bool() => {
+                            let t2 = rng.usize_below(count_ints(&inner[0]));
+                            let bad_inner = text_with_number(&inner[0], it, &d, t2, &mut 0, &mut |ity| {
+                                chosen = out_of_range_number(rng, ity);
+                                chosen.clone()
+                            });
+                            format!("[[{bad_inner}; {m}]; {n}]")
+                        }
+                        _ => format!("[{bad_elem}; {n}]"),
+                    };
+                    match catch(|| prg.parse_arg(0, &bad).map(|a| a.as_literal())) {
+                        Err(p) => {
+                            fail(&format!("parse_arg panicked on a repeat text with an out-of-range number: {p}"), json!({"text": bad}));
+                            return;
+                        }
+                        Ok(Err(_)) => st.counts.inc("parse_arg(text): repeat of an element with a number outside its type: refused"),
+                        Ok(Ok(parsed)) => {
+                            fail(
+                                "parse_arg accepts a repeat text whose element holds a number that does not fit its type (the text denotes no value)",
+                                json!({"text": bad, "number": chosen, "parsed": format!("{parsed:?}").chars().take(400).collect::<String>(), "type": t.show(&d)}),
+                            );
+                            return;
+                        }
+                    }
+                }
+            }
+        }
         // ---- canonical text with one number replaced by a number that does not fit its type: the
         //      text denotes no value of the type and must be refused (not wrapped or truncated)
         let n_ints = count_ints(&v);
